@@ -76,6 +76,9 @@ func makeSnapshotFile(r *vh.Rand, payload int) (data []byte, desc string) {
 	return data, desc
 }
 
+// sender cases for generated messages the real sender failed on
+var failedSends []*rcase
+
 type genStream struct {
 	def    streamDef
 	chunks []op // the real sender's output
@@ -124,6 +127,11 @@ func (sc *scenario) addStream(r *vh.Rand, shard, replica, from, index, term uint
 	s.files = append(s.files, c.files[base:]...)
 	sc.scases = append(sc.scases, s)
 	if failure != "" {
+		// the real sender refused a generated message: keep it as a sender case of its own
+		// (the run judges whether the message was consistent: SPLIT-PANIC)
+		f := *s
+		f.id = fmt.Sprintf("sf%d", len(failedSends))
+		failedSends = append(failedSends, &f)
 		return false
 	}
 	gs := genStream{def: def}
@@ -420,6 +428,14 @@ func tryGenSteadyCase(r *vh.Rand, id string) *rcase {
 // Transport.SendSnapshot end to end: ordinary and witness snapshots, without failure, with a
 // failing GetSnapshotConnection, with SendChunk failing after K delivered chunks
 func genGlueCase(r *vh.Rand, id string) *gcase {
+	for {
+		if c := tryGenGlueCase(r, id); c != nil {
+			return c
+		}
+	}
+}
+
+func tryGenGlueCase(r *vh.Rand, id string) *gcase {
 	c := &gcase{id: id, did: 1 + uint64(r.Intn(3)), cs: 1024 + uint64(r.Intn(2048))}
 	index := 100 + uint64(r.Intn(1000))
 	m := pb.Message{Type: pb.InstallSnapshot, ShardID: uint64(1 + r.Intn(3)), To: uint64(1 + r.Intn(3)), From: uint64(5 + r.Intn(3))}
@@ -449,7 +465,9 @@ func genGlueCase(r *vh.Rand, id string) *gcase {
 		}
 		chunks, failure := realSend(c.cs, c.did, c.files, m)
 		if failure != "" {
-			panic("glue case: sender failed")
+			f := &rcase{id: fmt.Sprintf("sf%d", len(failedSends)), kind: "S", cs: c.cs, did: c.did, msg: m, files: c.files}
+			failedSends = append(failedSends, f)
+			return nil
 		}
 		nchunks = len(chunks)
 	}
@@ -647,7 +665,39 @@ func gen(a vh.Args) {
 		}
 		w.Printf("%s\n", c.String())
 	}
+	// file sizes at the chunk size boundaries: k*cs-1, k*cs, k*cs+1 for the main file and the
+	// external files (the sender does not look at the content)
+	for i := 0; i < n/6+12; i++ {
+		c := &rcase{id: fmt.Sprintf("sb%d", i), kind: "S", cs: 16 + uint64(r.Intn(300)), did: uint64(r.Intn(5))}
+		size := func() int {
+			v := (1+r.Intn(4))*int(c.cs) + r.Intn(3) - 1
+			if r.Chance(1, 8) {
+				v = 1 + r.Intn(int(c.cs))
+			}
+			return v
+		}
+		c.msg = pb.Message{Type: pb.InstallSnapshot, ShardID: 1, To: 2, From: 3}
+		c.msg.Snapshot = pb.Snapshot{Index: r.BiasedU64(), Term: r.BiasedU64()}
+		nf := 1 + r.Intn(3)
+		for k := 0; k < nf; k++ {
+			sz := size()
+			seed := r.U64() & 0x7fffffff
+			p := fmt.Sprintf("/src/b/f%d", k)
+			c.files = append(c.files, fileDef{path: p, data: lcgBytes(seed, sz), desc: fmt.Sprintf("r%d.%d", seed, sz)})
+			if k == 0 {
+				c.msg.Snapshot.Filepath, c.msg.Snapshot.FileSize = p, uint64(sz)
+			} else {
+				c.msg.Snapshot.Files = append(c.msg.Snapshot.Files, &pb.SnapshotFile{Filepath: p, FileSize: uint64(sz), FileId: uint64(k)})
+			}
+		}
+		w.Printf("%s\n", c.String())
+	}
 	genStreamCases(r, w, a.Tier)
+	for i, f := range failedSends {
+		if i < 50 {
+			w.Printf("%s\n", f.String())
+		}
+	}
 	for i := 0; i < nbig; i++ {
 		sc := genReceiverCase(r, fmt.Sprintf("b%d", i), true, dist)
 		w.Printf("%s\n", sc.c.String())
